@@ -526,4 +526,361 @@ theorem iteBlock_complete : ∀ (ls : List Ex) (f : PFrame) (bd : List Name),
     | inl hy => exact r1 y (s3 y hy)
     | inr hy => exact r2 y hy
 
+/-! ### the general case: assignments nested in expressions, nested function literals
+
+The only exclusion (`okBlock`): a function literal must not have an *in-progress assignment target*
+among its declaratively free names — except the function that is itself the right-hand side of
+`x = |…| …`, whose `x` is the deferred self reference. Inside the right-hand side of `x = e` the
+parser leaves every nested function's `x` to that deferred capture (known finding F-C02-8). -/
+
+/-- the full-strength statement: every declaratively free variable of every function is in the
+parser's `accessed_non_locals` -/
+def CaptureComplete : Prop :=
+  ∀ (ps : List Name) (body : List Ex) (x : Name), x ∈ freeVars ps body → x ∈ accessed ps body
+
+/-- no name of `T` is declaratively free in `|ps| body` -/
+def noFree (T ps : List Name) (body : List Ex) : Bool :=
+  T.all (fun z => !(freeVars ps body).contains z)
+
+mutual
+/-- `T` = assignment targets whose right-hand side is being parsed -/
+def okE (T : List Name) : Ex → Bool
+  | .lit _ => true
+  | .var _ => true
+  | .add a b => okE T a && okE T b
+  | .sub a b => okE T a && okE T b
+  | .lt a b => okE T a && okE T b
+  | .paren e => okE T e
+  | .ite c t e => okE T c && okE T t && okE T e
+  | .assign _ (.fn ps body) => noFree T ps body && okBlock body
+  | .assign x e => okE (x :: T) e
+  | .fn ps body => noFree T ps body && okBlock body
+  | .call _ args => okArgs T args
+def okArgs (T : List Name) : List Ex → Bool
+  | [] => true
+  | e :: es => okE T e && okArgs T es
+def okBlock : List Ex → Bool
+  | [] => true
+  | e :: es => okE [] e && okBlock es
+end
+
+/-- frame and bound names agree, nothing is a pending assignment -/
+def Sim (f : PFrame) (bd : List Name) : Prop := f.pendAsg = [] ∧ ∀ y, y ∈ f.assigned ↔ y ∈ bd
+
+/-- effect of parsing a piece with declaratively free names `fr`, bound names `bd ↦ bd'` -/
+structure G (f f' : PFrame) (bd' fr : List Name) : Prop where
+  sim : Sim f' bd'
+  keep : ∀ y, Recd f y → Recd f' y
+  new : ∀ y, y ∈ fr → Recd f' y
+  prog : ∀ z, z ∈ f'.inProg → z ∈ f.inProg
+
+theorem G.refl (f : PFrame) (bd : List Name) (h : Sim f bd) : G f f bd [] :=
+  ⟨h, fun _ h => h, fun _ h => (by cases h), fun _ h => h⟩
+
+theorem G.trans {f f1 f2 : PFrame} {b1 b2 r1 r2 : List Name} (g1 : G f f1 b1 r1) (g2 : G f1 f2 b2 r2) :
+    G f f2 b2 (union r1 r2) :=
+  ⟨g2.sim, fun y h => g2.keep y (g1.keep y h),
+   fun y h => by
+     rcases (mem_union r1 r2 y).mp h with h | h
+     · exact g2.keep y (g1.new y h)
+     · exact g2.new y h,
+   fun z h => g1.prog z (g2.prog z h)⟩
+
+theorem G.weaken {f f' : PFrame} {b r r' : List Name} (g : G f f' b r) (h : ∀ y, y ∈ r' → y ∈ r) :
+    G f f' b r' :=
+  ⟨g.sim, g.keep, fun y hy => g.new y (h y hy), g.prog⟩
+
+theorem G.access (f : PFrame) (bd : List Name) (x : Name) (h : Sim f bd) :
+    G f (f.access x) bd (if bd.contains x then [] else [x]) where
+  sim := h
+  keep y hy := by
+    rcases hy with hy | ⟨h1, h2⟩
+    · exact Or.inl hy
+    · exact Or.inr ⟨List.mem_append.mpr (Or.inl h1), h2⟩
+  new y hy := by
+    by_cases hb : bd.contains x = true
+    · rw [if_pos hb] at hy; cases hy
+    · rw [if_neg hb] at hy
+      simp only [List.mem_singleton] at hy
+      subst hy
+      refine Or.inr ⟨List.mem_append.mpr (Or.inr (List.mem_singleton.mpr rfl)), fun hh => ?_⟩
+      exact hb (by simpa using (h.2 y).mp hh)
+  prog _ hz := hz
+
+theorem G.finalize (f : PFrame) (bd : List Name) (h : Sim f bd) : G f f.finalize bd [] where
+  sim := by
+    refine ⟨rfl, fun y => ?_⟩
+    simp only [PFrame.finalize, h.1, mem_union]
+    rw [← h.2 y]; simp
+  keep y hy := by
+    rcases hy with hy | ⟨h1, h2⟩
+    · exact Or.inl (by simp only [PFrame.finalize, mem_union]; exact Or.inl hy)
+    · refine Or.inl ?_
+      simp only [PFrame.finalize, mem_union]
+      right
+      rw [List.mem_filter]
+      exact ⟨h1, by simpa using h2⟩
+  new _ hy := by cases hy
+  prog _ hz := hz
+
+/-- after a finalize nothing is pending: recorded = in `nonLocals` -/
+theorem recd_finalized (f : PFrame) (y : Name) (h : Recd f.finalize y) : y ∈ f.finalize.nonLocals := by
+  rcases h with h | ⟨h, _⟩
+  · exact h
+  · simp [PFrame.finalize] at h
+
+theorem addNested_spec (ns : List Name) : ∀ (g : PFrame), g.pendAsg = [] →
+    (g.addNested ns).assigned = g.assigned ∧ (g.addNested ns).nonLocals = g.nonLocals
+    ∧ (g.addNested ns).pendAsg = [] ∧ (g.addNested ns).inProg = g.inProg
+    ∧ (∀ y, y ∈ g.pendAcc → y ∈ (g.addNested ns).pendAcc)
+    ∧ (∀ y, y ∈ ns → y ∉ g.inProg → y ∈ (g.addNested ns).pendAcc) := by
+  induction ns with
+  | nil => intro g hg; simp [PFrame.addNested, hg]
+  | cons n ns ih =>
+    intro g hg
+    have hstep : g.addNested (n :: ns)
+        = (if g.pendAsg.contains n || g.inProg.contains n then g else g.access n).addNested ns := by
+      simp [PFrame.addNested]
+    rw [hstep]
+    by_cases hc : (g.pendAsg.contains n || g.inProg.contains n) = true
+    · rw [if_pos hc]
+      obtain ⟨a1, a2, a3, a4, a5, a6⟩ := ih g hg
+      refine ⟨a1, a2, a3, a4, a5, fun y hy hni => ?_⟩
+      rcases List.mem_cons.mp hy with rfl | hy
+      · exfalso
+        simp only [hg, List.contains_nil, Bool.false_or] at hc
+        exact hni (by simpa using hc)
+      · exact a6 y hy hni
+    · rw [if_neg hc]
+      obtain ⟨a1, a2, a3, a4, a5, a6⟩ := ih (g.access n) hg
+      refine ⟨a1, a2, a3, a4, fun y hy => a5 y (List.mem_append.mpr (Or.inl hy)), fun y hy hni => ?_⟩
+      rcases List.mem_cons.mp hy with rfl | hy
+      · exact a5 y (List.mem_append.mpr (Or.inr (List.mem_singleton.mpr rfl)))
+      · exact a6 y hy hni
+
+/-- a function literal whose free names are all in `acc`, none of them in progress -/
+theorem G.nested (f : PFrame) (bd acc fr : List Name) (h : Sim f bd)
+    (hacc : ∀ y, y ∈ fr → y ∈ acc) (hprog : ∀ y, y ∈ fr → y ∉ f.inProg)
+    (hbd : ∀ y, y ∈ fr → y ∉ bd) :
+    G f (f.addNested acc) bd fr := by
+  obtain ⟨a1, a2, a3, a4, a5, a6⟩ := addNested_spec acc f h.1
+  refine ⟨⟨a3, fun y => by rw [a1]; exact h.2 y⟩, fun y hy => ?_, fun y hy => ?_, fun z hz => by rw [a4] at hz; exact hz⟩
+  · rcases hy with hy | ⟨h1, h2⟩
+    · exact Or.inl (by rw [a2]; exact hy)
+    · exact Or.inr ⟨a5 y h1, by rw [a1]; exact h2⟩
+  · exact Or.inr ⟨a6 y (hacc y hy) (hprog y hy), by rw [a1]; exact fun hh => hbd y hy ((h.2 y).mp hh)⟩
+
+/-- the frame in which the right-hand side of `x = …` is parsed -/
+def rhsFrame (f : PFrame) (x : Name) : PFrame := ((f.access x).assignId x).beginRhs
+
+theorem rhsFrame_spec (f : PFrame) (bd : List Name) (x : Name) (h : Sim f bd) :
+    Sim (rhsFrame f x) bd ∧ ((f.access x).assignId x).pendAsg = [x]
+    ∧ (∀ y, Recd f y → Recd (rhsFrame f x) y)
+    ∧ (∀ z, z ∈ (rhsFrame f x).inProg → z ∈ f.inProg ∨ z = x) := by
+  have hids : ((f.access x).assignId x).pendAsg = [x] := by
+    simp [PFrame.access, PFrame.assignId, h.1, ins]
+  refine ⟨⟨rfl, h.2⟩, hids, fun y hy => ?_, fun z hz => ?_⟩
+  · rcases hy with hy | ⟨h1, h2⟩
+    · exact Or.inl hy
+    · refine Or.inr ⟨?_, h2⟩
+      show y ∈ (f.pendAcc ++ [x]).erase x
+      exact (mem_erase_append_self f.pendAcc x y).mpr h1
+  · have : z ∈ union f.inProg ((f.access x).assignId x).pendAsg := hz
+    rw [hids, mem_union] at this
+    rcases this with h1 | h1
+    · exact Or.inl h1
+    · exact Or.inr (List.mem_singleton.mp h1)
+
+/-- completing `x = rhs`: finalize, then the target becomes assigned -/
+theorem G.assign (f g : PFrame) (bd bd1 fr : List Name) (x : Name) (h : Sim f bd)
+    (hg : G (rhsFrame f x) g bd1 fr) :
+    G f (g.finalize.endRhs [x]) (ins x bd1) fr := by
+  obtain ⟨s1, _, s3, s4⟩ := rhsFrame_spec f bd x h
+  have gf := G.finalize g bd1 hg.sim
+  refine ⟨⟨rfl, fun y => ?_⟩, fun y hy => ?_, fun y hy => ?_, fun z hz => ?_⟩
+  · simp only [PFrame.endRhs, mem_union, mem_ins, List.mem_singleton]
+    rw [gf.sim.2 y]
+    exact or_comm
+  · exact Or.inl (recd_finalized g y (gf.keep y (hg.keep y (s3 y hy))))
+  · exact Or.inl (recd_finalized g y (gf.keep y (hg.new y hy)))
+  · have hz' : z ∈ g.finalize.inProg ∧ z ≠ x := by
+      have : z ∈ g.finalize.inProg.filter (fun w => !([x] : List Name).contains w) := hz
+      rw [List.mem_filter] at this
+      exact ⟨this.1, by simpa using this.2⟩
+    rcases s4 z (hg.prog z (gf.prog z hz'.1)) with h1 | h1
+    · exact h1
+    · exact absurd h1 hz'.2
+
+theorem pe_assign (x : Name) (e : Ex) (f : PFrame) (hf : f.pendAsg = []) :
+    pe (.assign x e) f = ((pe e (rhsFrame f x)).finalize).endRhs [x] := by
+  have hids : ((f.access x).assignId x).pendAsg = [x] := by
+    simp [PFrame.access, PFrame.assignId, hf, ins]
+  simp only [pe, hids, rhsFrame]
+
+theorem inProg_sub_cons {f : PFrame} {T : List Name} {x : Name}
+    (hT : ∀ z, z ∈ f.inProg → z ∈ T) (z : Name) (hz : z ∈ f.inProg ∨ z = x) : z ∈ x :: T := by
+  rcases hz with hz | rfl
+  · exact List.mem_cons_of_mem _ (hT z hz)
+  · exact List.mem_cons_self
+
+theorem noFree_spec {T ps : List Name} {body : List Ex} (h : noFree T ps body = true)
+    (y : Name) (hy : y ∈ freeVars ps body) : y ∉ T := by
+  intro hT
+  have := List.all_eq_true.mp h y hT
+  simp at this
+  exact this hy
+
+theorem assign_nonfn (x : Name) (e : Ex) (f : PFrame) (bd : List Name)
+    (hfv : fv (.assign x e) bd = ((fv e bd).1, ins x (fv e bd).2)) (hs : Sim f bd)
+    (ih : G (rhsFrame f x) (pe e (rhsFrame f x)) (fv e bd).2 (fv e bd).1) :
+    G f (pe (.assign x e) f) (fv (.assign x e) bd).2 (fv (.assign x e) bd).1 := by
+  rw [pe_assign x e f hs.1, hfv]
+  exact G.assign f _ bd _ _ x hs ih
+
+mutual
+theorem pe_ok : ∀ (e : Ex) (T : List Name) (f : PFrame) (bd : List Name),
+    okE T e = true → Sim f bd → (∀ z, z ∈ f.inProg → z ∈ T) →
+    G f (pe e f) (fv e bd).2 (fv e bd).1
+  | .lit _, _, f, bd, _, hs, _ => by simpa [pe, fv] using G.refl f bd hs
+  | .var x, _, f, bd, _, hs, _ => by simpa [pe, fv] using G.access f bd x hs
+  | .add a b, T, f, bd, ho, hs, hT => by
+    simp only [okE, Bool.and_eq_true] at ho
+    have g1 := pe_ok a T f bd ho.1 hs hT
+    have g2 := pe_ok b T (pe a f) (fv a bd).2 ho.2 g1.sim (fun z hz => hT z (g1.prog z hz))
+    simpa [pe, fv] using g1.trans g2
+  | .sub a b, T, f, bd, ho, hs, hT => by
+    simp only [okE, Bool.and_eq_true] at ho
+    have g1 := pe_ok a T f bd ho.1 hs hT
+    have g2 := pe_ok b T (pe a f) (fv a bd).2 ho.2 g1.sim (fun z hz => hT z (g1.prog z hz))
+    simpa [pe, fv] using g1.trans g2
+  | .lt a b, T, f, bd, ho, hs, hT => by
+    simp only [okE, Bool.and_eq_true] at ho
+    have g1 := pe_ok a T f bd ho.1 hs hT
+    have g2 := pe_ok b T (pe a f) (fv a bd).2 ho.2 g1.sim (fun z hz => hT z (g1.prog z hz))
+    simpa [pe, fv] using g1.trans g2
+  | .paren e, T, f, bd, ho, hs, hT => by
+    simp only [okE] at ho
+    simpa [pe, fv] using pe_ok e T f bd ho hs hT
+  | .ite c t e, T, f, bd, ho, hs, hT => by
+    simp only [okE, Bool.and_eq_true] at ho
+    have g1 := pe_ok c T f bd ho.1.1 hs hT
+    have g2 := (pe_ok t T (pe c f) (fv c bd).2 ho.1.2 g1.sim (fun z hz => hT z (g1.prog z hz))).trans
+      (G.finalize _ _ (pe_ok t T (pe c f) (fv c bd).2 ho.1.2 g1.sim (fun z hz => hT z (g1.prog z hz))).sim)
+    have g3 := (pe_ok e T (pe t (pe c f)).finalize (fv t (fv c bd).2).2 ho.2 g2.sim
+        (fun z hz => hT z (g1.prog z (g2.prog z hz)))).trans
+      (G.finalize _ _ (pe_ok e T (pe t (pe c f)).finalize (fv t (fv c bd).2).2 ho.2 g2.sim
+        (fun z hz => hT z (g1.prog z (g2.prog z hz)))).sim)
+    have := (g1.trans (g2.trans g3)).weaken (r' := union (union (fv c bd).1 (fv t (fv c bd).2).1) (fv e (fv t (fv c bd).2).2).1)
+      (fun y hy => by
+        simp only [mem_union] at hy
+        rcases hy with (h | h) | h <;> simp [mem_union, h])
+    simpa [pe, fv] using this
+  | .assign x (.fn ps body), T, f, bd, ho, hs, hT => by
+    simp only [okE, Bool.and_eq_true] at ho
+    obtain ⟨s1, _, _, s4⟩ := rhsFrame_spec f bd x hs
+    have hb := (peBlock_ok body { assigned := ps } ps ho.2 ⟨rfl, fun _ => Iff.rfl⟩ rfl rfl).2
+    have hfv : fv (.assign x (.fn ps body)) bd
+        = (((fvBlock body ps).1.filter (fun y => !bd.contains y)).filter (· != x), ins x bd) := by
+      simp [fv]
+    have gn : G (rhsFrame f x) ((rhsFrame f x).addNested (accessed ps body)) bd
+        (((fvBlock body ps).1.filter (fun y => !bd.contains y)).filter (· != x)) := by
+      refine G.nested _ bd _ _ s1 (fun y hy => ?_) (fun y hy hin => ?_) (fun y hy => ?_)
+      · simp only [List.mem_filter] at hy
+        exact hb y hy.1.1
+      · simp only [List.mem_filter] at hy
+        rcases s4 y hin with h1 | h1
+        · exact noFree_spec ho.1 y hy.1.1 (hT y h1)
+        · simp [h1] at hy
+      · simp only [List.mem_filter] at hy
+        simpa using hy.1.2
+    have hpe : pe (.fn ps body) (rhsFrame f x) = (rhsFrame f x).addNested (accessed ps body) := by
+      simp [pe, accessed]
+    rw [pe_assign x _ f hs.1, hfv, hpe]
+    exact G.assign f _ bd bd _ x hs gn
+  | .assign x (.lit n), T, f, bd, ho, hs, hT =>
+    assign_nonfn x (.lit n) f bd (by simp [fv]) hs
+      (pe_ok (.lit n) (x :: T) (rhsFrame f x) bd (by simpa [okE] using ho) (rhsFrame_spec f bd x hs).1
+        (fun z hz => inProg_sub_cons hT z ((rhsFrame_spec f bd x hs).2.2.2 z hz)))
+  | .assign x (.var y), T, f, bd, ho, hs, hT =>
+    assign_nonfn x (.var y) f bd (by simp [fv]) hs
+      (pe_ok (.var y) (x :: T) (rhsFrame f x) bd (by simpa [okE] using ho) (rhsFrame_spec f bd x hs).1
+        (fun z hz => inProg_sub_cons hT z ((rhsFrame_spec f bd x hs).2.2.2 z hz)))
+  | .assign x (.add a b), T, f, bd, ho, hs, hT =>
+    assign_nonfn x (.add a b) f bd (by simp [fv]) hs
+      (pe_ok (.add a b) (x :: T) (rhsFrame f x) bd (by simpa [okE] using ho) (rhsFrame_spec f bd x hs).1
+        (fun z hz => inProg_sub_cons hT z ((rhsFrame_spec f bd x hs).2.2.2 z hz)))
+  | .assign x (.sub a b), T, f, bd, ho, hs, hT =>
+    assign_nonfn x (.sub a b) f bd (by simp [fv]) hs
+      (pe_ok (.sub a b) (x :: T) (rhsFrame f x) bd (by simpa [okE] using ho) (rhsFrame_spec f bd x hs).1
+        (fun z hz => inProg_sub_cons hT z ((rhsFrame_spec f bd x hs).2.2.2 z hz)))
+  | .assign x (.lt a b), T, f, bd, ho, hs, hT =>
+    assign_nonfn x (.lt a b) f bd (by simp [fv]) hs
+      (pe_ok (.lt a b) (x :: T) (rhsFrame f x) bd (by simpa [okE] using ho) (rhsFrame_spec f bd x hs).1
+        (fun z hz => inProg_sub_cons hT z ((rhsFrame_spec f bd x hs).2.2.2 z hz)))
+  | .assign x (.paren e'), T, f, bd, ho, hs, hT =>
+    assign_nonfn x (.paren e') f bd (by simp [fv]) hs
+      (pe_ok (.paren e') (x :: T) (rhsFrame f x) bd (by simpa [okE] using ho) (rhsFrame_spec f bd x hs).1
+        (fun z hz => inProg_sub_cons hT z ((rhsFrame_spec f bd x hs).2.2.2 z hz)))
+  | .assign x (.ite c t e'), T, f, bd, ho, hs, hT =>
+    assign_nonfn x (.ite c t e') f bd (by simp [fv]) hs
+      (pe_ok (.ite c t e') (x :: T) (rhsFrame f x) bd (by simpa [okE] using ho) (rhsFrame_spec f bd x hs).1
+        (fun z hz => inProg_sub_cons hT z ((rhsFrame_spec f bd x hs).2.2.2 z hz)))
+  | .assign x (.assign y e'), T, f, bd, ho, hs, hT =>
+    assign_nonfn x (.assign y e') f bd (by simp [fv]) hs
+      (pe_ok (.assign y e') (x :: T) (rhsFrame f x) bd (by simpa [okE] using ho) (rhsFrame_spec f bd x hs).1
+        (fun z hz => inProg_sub_cons hT z ((rhsFrame_spec f bd x hs).2.2.2 z hz)))
+  | .assign x (.call g args), T, f, bd, ho, hs, hT =>
+    assign_nonfn x (.call g args) f bd (by simp [fv]) hs
+      (pe_ok (.call g args) (x :: T) (rhsFrame f x) bd (by simpa [okE] using ho) (rhsFrame_spec f bd x hs).1
+        (fun z hz => inProg_sub_cons hT z ((rhsFrame_spec f bd x hs).2.2.2 z hz)))
+  | .fn ps body, T, f, bd, ho, hs, hT => by
+    simp only [okE, Bool.and_eq_true] at ho
+    have hb := (peBlock_ok body { assigned := ps } ps ho.2 ⟨rfl, fun _ => Iff.rfl⟩ rfl rfl).2
+    have hfv : fv (.fn ps body) bd = ((fvBlock body ps).1.filter (fun y => !bd.contains y), bd) := by
+      simp [fv]
+    have hpe : pe (.fn ps body) f = f.addNested (accessed ps body) := by simp [pe, accessed]
+    rw [hfv, hpe]
+    refine G.nested f bd _ _ hs (fun y hy => ?_) (fun y hy hin => ?_) (fun y hy => ?_)
+    · simp only [List.mem_filter] at hy
+      exact hb y hy.1
+    · simp only [List.mem_filter] at hy
+      exact noFree_spec ho.1 y hy.1 (hT y hin)
+    · simp only [List.mem_filter] at hy
+      simpa using hy.2
+  | .call g args, T, f, bd, ho, hs, hT => by
+    simp only [okE] at ho
+    have g1 := G.access f bd g hs
+    have g2 := peArgs_ok args T (f.access g) bd ho g1.sim (fun z hz => hT z (g1.prog z hz))
+    simpa [pe, fv] using g1.trans g2
+theorem peArgs_ok : ∀ (es : List Ex) (T : List Name) (f : PFrame) (bd : List Name),
+    okArgs T es = true → Sim f bd → (∀ z, z ∈ f.inProg → z ∈ T) →
+    G f (peArgs es f) (fvArgs es bd).2 (fvArgs es bd).1
+  | [], _, f, bd, _, hs, _ => by simpa [peArgs, fvArgs] using G.refl f bd hs
+  | e :: es, T, f, bd, ho, hs, hT => by
+    simp only [okArgs, Bool.and_eq_true] at ho
+    have g1 := pe_ok e T f bd ho.1 hs hT
+    have g2 := peArgs_ok es T (pe e f) (fv e bd).2 ho.2 g1.sim (fun z hz => hT z (g1.prog z hz))
+    simpa [peArgs, fvArgs] using g1.trans g2
+theorem peBlock_ok : ∀ (es : List Ex) (f : PFrame) (bd : List Name),
+    okBlock es = true → Sim f bd → f.pendAcc = [] → f.inProg = [] →
+    (∀ y, y ∈ f.nonLocals → y ∈ (peBlock es f).nonLocals)
+    ∧ (∀ y, y ∈ (fvBlock es bd).1 → y ∈ (peBlock es f).nonLocals)
+  | [], f, bd, _, _, _, _ => by simp [peBlock, fvBlock]
+  | e :: es, f, bd, ho, hs, hacc, hprog => by
+    simp only [okBlock, Bool.and_eq_true] at ho
+    have g1 := pe_ok e [] f bd ho.1 hs (fun z hz => by rw [hprog] at hz; cases hz)
+    have g := g1.trans (G.finalize _ _ g1.sim)
+    have hip : (pe e f).finalize.inProg = [] := by
+      apply List.eq_nil_iff_forall_not_mem.mpr
+      intro z hz
+      have := g.prog z hz
+      rw [hprog] at this; cases this
+    obtain ⟨r1, r2⟩ := peBlock_ok es (pe e f).finalize (fv e bd).2 ho.2 g.sim rfl hip
+    simp only [peBlock, fvBlock]
+    refine ⟨fun y hy => r1 y (recd_finalized _ y (g.keep y (Or.inl hy))), fun y hy => ?_⟩
+    rcases (mem_union _ _ y).mp hy with hy | hy
+    · exact r1 y (recd_finalized _ y (g.new y ((mem_union _ _ y).mpr (Or.inl hy))))
+    · exact r2 y hy
+end
+
 end KotoVerif.C02
